@@ -85,6 +85,9 @@ func main() {
 		os.Stdout.Write(b)
 		fmt.Println()
 	}
+	if os.Getenv("GOSX_DEBUG") != "" {
+		fmt.Fprintf(os.Stderr, "phases: build+write=%v check-sat=%v\n", gosx.PhaseBuild, gosx.PhaseSat)
+	}
 	fmt.Fprintf(os.Stderr, "gosx %s: paths=%d %v viol=%d queries=%d (sat %d unsat %d unknown %d) solver=%.1fs wall=%.1fs exhausted=%v\n",
 		*harness, stats.Paths, stats.ByStatus, len(viols), stats.Queries, stats.Sat, stats.Unsat, stats.Unknown, stats.SolverTimeS, stats.WallS, stats.Exhausted)
 }
